@@ -59,6 +59,7 @@ def gen_cases(tier, seed):
                 "reject_exc": rng.choice(["PermissionError", "FileNotFoundError"]),
                 "reject_create": (not weak) and rng.random() < 0.03,
                 "cancel": None if rng.random() < 0.9 else [rng.choice(["S", "D"]), rng.randrange(1, 12)]}
+        cfg["scribble_user"] = rng.random() < 0.2  # a user which overwrites the attributes of the parameter objects its callbacks receive
         if rng.random() < 0.25:
             # the receiver's own default checksum type for this sender differs from the one the Metadata PDU announces (which decides)
             cfg["rc_at_dst"] = {"crc_type": rng.choice([k for k in ("null", "null", "modular", "crc32", "crc32c") if k != cfg["cks"]])}
